@@ -13,7 +13,7 @@ RULE = ("one seeded tree of DESIGN.md 5.3 (1-4 layers x main-file state per laye
 
 
 def gen_world(rng, i, tier):
-    w = gen.gen_layered_world(rng, i, allow_repeat=True, allow_dotdot=True)
+    w = gen.gen_layered_world(rng, i, allow_repeat=True, allow_dotdot=True, allow_join=True)
     if gen.name_of(w["read"]) and w["nodes"] and rng.chance(0.2):
         # the tree changes between two reads of the same process: the second read must see the tree as it is then
         files = [k for k, n in enumerate(w["nodes"]) if n["t"] == "f"]
@@ -50,6 +50,8 @@ def mutated_nodes(world):
             for e in n.get("entries", []):
                 if e[2] is not None:
                     e[2] = "alt-" + e[2]
+            if n.get("split"):
+                n["split"][2] = "alt-" + n["split"][2]      # the first of the two lines that give the key
         if m.get("drop") is not None and len(nodes) > 1:
             del nodes[m["drop"] % len(nodes)]
         return nodes
